@@ -21,17 +21,17 @@ def line (size : Nat) (mf : Option Nat) (fv : String) (mx : String) : String :=
   let mfS := match mf with | some m => toString m | none => "err"
   s!"size={size} minfee={mfS} fee={fv} max={mx}"
 
-def handle (ln : String) : Out :=
-  match tokens ln with
-  | ["fee", era, a, b, mx, fee, n, hex] =>
+def handleCore (era a b mx fee n hex : String) (reasm : Bool) : Out :=
     match eraType era, parseNat? a, parseNat? b, parseNat? mx, parseNat? fee, parseNat? n, parseHex? hex with
     | some et, some a, some b, some mx, some fee, some n, some bytes =>
       if a > u64max || b > u64max || mx > u64max || fee > u64max then badOp else
       -- the component count is read from the bytes by the byte-layer parser; the op's n
       -- must agree with it (the harness compares it with an independent decode)
       if envCount bytes ≠ some n then { model := "n-mismatch", spec := "*" } else
+      let t0 : Tx := { eraType := et, bytes := bytes, n := n, fee := fee }
+      if !decodeOk t0 then { model := "decode-err", spec := "*" } else
+      let bytes := if reasm then (reassemble bytes).getD bytes else bytes
       let t : Tx := { eraType := et, bytes := bytes, n := n, fee := fee }
-      if !decodeOk t then { model := "decode-err", spec := "*" } else
       let size := txSizeForFee t
       let model := line size (minFee size a b) (verdictStr (feeVerdict t a b)) (boolStr (maxOk t mx))
       -- spec, from the property text (independent of txSizeForFee):
@@ -53,6 +53,15 @@ def handle (ln : String) : Out :=
       -- a transaction the decoder refuses is not accepted: never a violation
       { model := model, spec := "||".intercalate (alts ++ ["decode-err"]) }
     | _, _, _, _, _, _, _ => badOp
+
+def handle (ln : String) : Out :=
+  match tokens ln with
+  | ["fee", era, a, b, mx, fee, n, hex] => handleCore era a b mx fee n hex false
+  -- the envelope's stored bytes dropped after decoding: the size comes from the re-assembly
+  | ["fee", era, a, b, mx, fee, n, hex, "r"] => handleCore era a b mx fee n hex true
+  -- struct-built, hex = the library's own encoding of the struct (checked by the harness):
+  -- the no-stored-bytes fallback measures exactly these bytes
+  | ["fee", era, a, b, mx, fee, n, hex, "s", _] => handleCore era a b mx fee n hex false
   | _ => badOp
 
 end GV.Drv.C30
